@@ -27,6 +27,19 @@ def run_checks(tmp, pids):
     return res
 
 
+def summary_for(pid):
+    """thorough tier: replay the corpus mutants / benign edits and the seeded changes that concern property `pid` against scratch copies
+    and summarise (never affects the verdict on /repo; VERIF_SELFTEST=0 skips it)"""
+    if os.environ.get('VERIF_SELFTEST') == '0' or os.environ.get('VERIF_REPO'):
+        return {'skipped': True}
+    env = dict(os.environ)
+    env.pop('VERIF_TIER', None)
+    p = subprocess.run([os.path.join(HERE, 'check'), 'selftest', pid], env=env, stdout=subprocess.PIPE, stderr=subprocess.STDOUT, text=True)
+    rows = [l for l in p.stdout.splitlines() if ' mutant ' in l or ' benign ' in l or ' seeded ' in l]
+    return {'entries': len(rows), 'detected': sum('DETECTED' in r for r in rows), 'missed': [r.split()[0] for r in rows if 'MISSED' in r],
+            'false_alarms': [r.split()[0] for r in rows if 'FALSE ALARM' in r], 'silent_benign': sum(' silent' in r for r in rows), 'rows': rows[:60]}
+
+
 def main(args):
     have = built()
     only = set(a for a in args if not a.startswith('-'))
